@@ -265,6 +265,7 @@ fn spec_to_replay(p: &GenParams, steps: &[Step], choices: &[usize]) -> Value {
             "send_additional": p.send_additional,
             "chase_in_reply": p.chase_in_reply,
             "v6_glue_first": p.v6_glue_first,
+            "glue_family": p.glue_family,
             "resolver_mode": p.resolver_mode,
             "families": p.families.iter().map(|f| format!("{f:?}")).collect::<Vec<_>>(),
         },
@@ -340,6 +341,7 @@ pub fn params_from_json(v: &Value) -> GenParams {
         send_additional: v["send_additional"].as_bool().unwrap_or(true),
         chase_in_reply: v["chase_in_reply"].as_bool().unwrap_or(false),
         v6_glue_first: v["v6_glue_first"].as_bool().unwrap_or(false),
+        glue_family: v["glue_family"].as_u64().unwrap_or(0) as u8,
         resolver_mode: v["resolver_mode"].as_u64().unwrap_or(0) as u8,
         families: v["families"].as_array().map(|a| a.iter().map(|s| fam(s.as_str().unwrap_or(""))).collect()).unwrap_or_default(),
     }
